@@ -662,7 +662,7 @@ def check(ctx):
             n_light = 0
             for c in extra:
                 # (a share of the extra runs is repeated without the recorder: all GP runs, every third other one)
-                lt = prop in ('C01', 'C02', 'C07', 'C12', 'C20') and (c['kind'] == 'GP' or n_light % 3 == 0)
+                lt = prop in ('C01', 'C02', 'C03', 'C04', 'C07', 'C12', 'C20') and (c['kind'] == 'GP' or n_light % 3 == 0)
                 n_light += 1
                 res['runs'].append(runpass.analyse_run(c, drv, props=[prop], light=lt))
         finally:
